@@ -472,7 +472,7 @@ const RULES: [&str; 40] = [
     "upgrade-history", "cell-boundary", "cell-scan", "epoch-sample", "guard-model", "closure-once",
     "c13-active-set", "queue-history", "list-history", "bulk-counts", "tag-model", "state-model",
     "modular-model", "e2e-decision", "trait-model", "latency-bound", "stack-survive", "tls-child",
-    "cell-lin", "weak-cell-lin", "weak-cell-boundary", "pin-interval", "r1", "r2", "r3", "r4", "r5",
+    "cell-lin", "weak-cell-lin", "weak-cell-boundary", "pin-interval", "participant-record", "r2", "r3", "r4", "r5",
     "r6", "r7", "r8", "r9", "r10", "r11", "r12",
 ];
 
@@ -507,7 +507,7 @@ pub fn evals_json() -> J {
 
 pub fn ev_counts_json() -> J {
     let mut j = J::obj();
-    for k in 1..19u16 {
+    for k in 1..21u16 {
         let v = EV_COUNTS[k as usize].load(Relaxed);
         if v > 0 {
             j.put(E::name(k), v);
@@ -614,12 +614,19 @@ fn check_owners_at_destruct(id: u32, what: &str) {
         }
         // every holder is a guard taken inside a destructor that runs during collection
         let ctx = if o.snap_dtor_ctx.load(SeqCst) == snap { "|context=destructor-during-collection" } else { "" };
-        violation(
+        // Under the C01 check the run goes on: the question there is whether an Rc made from such a Snapshot
+        // (`counted()`) refers to a destructed object.
+        let f = if check_prop() == "C01" { report } else { violation_nofatal_shim };
+        f(
             "C02",
             &format!("C02|{}-while-snapshot|origin={}|{}{}", what, origin, path_name(), ctx),
             format!("obj {}: {} began while {} snapshot(s) under live guards exist (depth {})", id, what, snap, CUR_DEPTH.with(|d| d.get())),
         );
     }
+}
+
+fn violation_nofatal_shim(prop: &str, sig: &str, detail: String) {
+    violation(prop, sig, detail)
 }
 
 /// Called at the start of the payload's `Drop`.
